@@ -273,7 +273,7 @@ class Ctx:
         self.evaluations += 1
         if nontrivial:
             self.nontrivial.add(key if isinstance(key, (str, int)) else json.dumps(key, sort_keys=True))
-        if sample is not None and len(self.samples) < 5:
+        if sample is not None and nontrivial and len(self.samples) < 5:
             self.samples.append(sample)
 
     def known_finding(self, fid: str, case):
@@ -355,3 +355,41 @@ def run_check(fn, pid: str):
         print(f"MACHINERY-FAILURE property={pid}: {ex}", file=sys.stderr)
         sys.exit(2)
     sys.exit(rc)
+
+
+# --------------------------------------------------------------------------------------------
+# batch trace validation
+# --------------------------------------------------------------------------------------------
+def validate_traces(ctx: "Ctx", module: str, cfg: str, traces: list, *, chunk: int = 4000, timeout: int = 1800) -> dict:
+    """traces: list of {"name": str, "ev": [event dicts with small ints / strings / booleans]}.
+    Returns {name: {"v": verdict, "at": index}}. Every trace must get exactly one verdict, otherwise
+    the trace spec itself is broken (machinery failure)."""
+    verdicts = {}
+    traces = [t for t in traces if t["ev"]]
+    for k in range(0, len(traces), chunk):
+        part = traces[k:k + chunk]
+        fd, path = tempfile.mkstemp(prefix="traces_", suffix=".ndjson")
+        with os.fdopen(fd, "w") as f:
+            for t in part:
+                f.write(json.dumps(t) + "\n")
+        try:
+            r = tlc(module, cfg, env={"TRACE_FILE": path}, timeout=timeout)
+        finally:
+            os.unlink(path)
+        ctx.states += r.states
+        ctx.transitions += r.generated
+        ctx.tlc_runs.append({"module": module, "cfg": cfg, "distinct": r.states, "generated": r.generated,
+                             "wall_s": round(r.wall, 2), "traces": len(part),
+                             "result": "violated:" + r.violated if r.violated else ("ok" if r.ok else "error")})
+        if r.error or (r.violated and r.violated not in ("C20reg",)):
+            raise MachineryError(f"trace validation {module}/{cfg} failed: {r.error or r.violated}\n{r.out[-2000:]}")
+        for j in r.json_lines():
+            if isinstance(j, dict) and "t" in j and "v" in j:
+                # the first verdict for a trace wins (a rejected trace prints once; accepted prints once)
+                verdicts.setdefault(j["t"], j)
+        if r.violated:
+            verdicts["__invariant__"] = {"v": "prop:" + r.violated, "at": -1}
+        missing = [t["name"] for t in part if t["name"] not in verdicts]
+        if missing:
+            raise MachineryError(f"trace validation {module}/{cfg}: no verdict for {len(missing)} traces, e.g. {missing[:3]}\n{r.out[-1500:]}")
+    return verdicts
